@@ -248,11 +248,15 @@ func (s *Sandbox) manifestPut(ls *lua.LState) int {
 	r := s.checkReference(ls, 2)
 	s.log.Debug("Put manifest",
 		slog.String("script", s.name),
-		slog.String("image", r.r.CommonName()))
+		slog.String("image", r.r.CommonName()),
+		slog.Bool("dry-run", s.dryRun))
 
 	m, err := manifest.New(manifest.WithOrig(sbm.m.GetOrig()))
 	if err != nil {
 		ls.RaiseError("Failed to put manifest: %v", err)
+	}
+	if s.dryRun {
+		return 0
 	}
 
 	err = s.rc.ManifestPut(s.ctx, r.r, m)
